@@ -1,8 +1,192 @@
-//! C08 end-to-end sub-checks over loopback (filled in with the network peers).
-use crate::engine::*;
-use serde_json::Value;
+//! C08 end-to-end sub-checks over loopback: bulk, aligned and generic clients
+//! against bulk, borrowing and generic routes, sync and async.
 
-pub fn run(_ctx: &Ctx, _rep: &Report) {}
-pub fn replay(sub: &str, _case: &Value) -> Result<(), Fail> {
-    Err(Fail::new("replay-unknown-sub", sub.to_string()))
+use crate::engine::*;
+use crate::ensure;
+use crate::gens::fill;
+use crate::util::block_on_mt as block_on;
+use proptest::prelude::*;
+use repe::{AsyncClient, AsyncServer, Client, ErrorCode, Router, Server, TypedResponse};
+use serde::{Deserialize, Serialize};
+use serde_json::Value;
+use std::net::SocketAddr;
+use std::sync::OnceLock;
+
+#[derive(Debug, Clone, Copy, Serialize, Deserialize, Hash, PartialEq, Eq)]
+pub enum Method {
+    Slice,
+    Aligned,
+    Beve,
+}
+
+#[derive(Debug, Clone, Copy, Serialize, Deserialize, Hash, PartialEq, Eq)]
+pub enum Route {
+    Slice,
+    SliceRef,
+    Typed,
+}
+
+#[derive(Debug, Clone, Serialize, Deserialize, Hash, PartialEq, Eq)]
+pub struct E2E {
+    pub asynchronous_client: bool,
+    pub asynchronous_server: bool,
+    pub method: Method,
+    pub route: Route,
+    pub ty: u8,
+    pub len: usize,
+    pub seed: u64,
+    /// extra path characters (varies the query length and with it the aligned padding)
+    pub pad: usize,
+}
+
+fn router() -> Router {
+    let mut r = Router::new();
+    // routes for several query lengths so that every residue mod 8 occurs
+    for pad in 0..9usize {
+        let p = "x".repeat(pad);
+        r = r
+            .with_typed_slice::<f64, f64, _>(&format!("/s/f64/{p}"), |v: Vec<f64>| Ok(v))
+            .with_typed_slice_ref::<f64, f64, _>(&format!("/r/f64/{p}"), |v: &[f64]| Ok(v.to_vec()))
+            .with_typed::<Vec<f64>, Vec<f64>, _>(&format!("/t/f64/{p}"), |v: Vec<f64>| Ok::<_, (ErrorCode, String)>(TypedResponse::beve(v)))
+            .with_typed_slice::<i32, i32, _>(&format!("/s/i32/{p}"), |v: Vec<i32>| Ok(v))
+            .with_typed_slice_ref::<i32, i32, _>(&format!("/r/i32/{p}"), |v: &[i32]| Ok(v.to_vec()))
+            .with_typed::<Vec<i32>, Vec<i32>, _>(&format!("/t/i32/{p}"), |v: Vec<i32>| Ok::<_, (ErrorCode, String)>(TypedResponse::beve(v)))
+            .with_typed_slice::<u8, u8, _>(&format!("/s/u8/{p}"), |v: Vec<u8>| Ok(v))
+            .with_typed_slice_ref::<u8, u8, _>(&format!("/r/u8/{p}"), |v: &[u8]| Ok(v.to_vec()))
+            .with_typed::<Vec<u8>, Vec<u8>, _>(&format!("/t/u8/{p}"), |v: Vec<u8>| Ok::<_, (ErrorCode, String)>(TypedResponse::beve(v)));
+    }
+    r
+}
+
+static SERVERS: OnceLock<(SocketAddr, SocketAddr)> = OnceLock::new();
+
+fn servers() -> (SocketAddr, SocketAddr) {
+    *SERVERS.get_or_init(|| {
+        let server = Server::new(router());
+        let l = server.listen("127.0.0.1:0").unwrap();
+        let a1 = l.local_addr().unwrap();
+        std::thread::spawn(move || {
+            let _ = server.serve(l);
+        });
+        let a2 = block_on(async {
+            let l = AsyncServer::listen("127.0.0.1:0").await.unwrap();
+            let a = l.local_addr().unwrap();
+            tokio::spawn(async move {
+                let _ = AsyncServer::new(router()).serve(l).await;
+            });
+            a
+        });
+        (a1, a2)
+    })
+}
+
+macro_rules! run_ty {
+    ($t:ty, $tyname:expr, $c:expr, $mk:expr, $bits:expr) => {{
+        let c: &E2E = $c;
+        let raw = fill(c.len * 8, c.seed);
+        let xs: Vec<$t> = (0..c.len).map(|i| $mk(&raw[i * 8..i * 8 + 8])).collect();
+        let prefix = match c.route {
+            Route::Slice => "s",
+            Route::SliceRef => "r",
+            Route::Typed => "t",
+        };
+        let path = format!("/{prefix}/{}/{}", $tyname, "x".repeat(c.pad % 9));
+        let (a_sync, a_async) = servers();
+        let addr = if c.asynchronous_server { a_async } else { a_sync };
+        let res: Result<Vec<$t>, String> = if c.asynchronous_client {
+            block_on(async {
+                let cl = AsyncClient::connect(addr).await.map_err(|e| e.to_string())?;
+                match c.method {
+                    Method::Slice => cl.call_typed_slice::<_, $t, $t>(&path, &xs).await,
+                    Method::Aligned => cl.call_typed_slice_aligned::<_, $t, $t>(&path, &xs).await,
+                    Method::Beve => cl.call_typed_beve::<_, Vec<$t>, Vec<$t>>(&path, &xs).await,
+                }
+                .map_err(|e| e.to_string())
+            })
+        } else {
+            (|| {
+                let cl = Client::connect(addr).map_err(|e| e.to_string())?;
+                match c.method {
+                    Method::Slice => cl.call_typed_slice::<_, $t, $t>(&path, &xs),
+                    Method::Aligned => cl.call_typed_slice_aligned::<_, $t, $t>(&path, &xs),
+                    Method::Beve => cl.call_typed_beve::<_, Vec<$t>, Vec<$t>>(&path, &xs),
+                }
+                .map_err(|e| e.to_string())
+            })()
+        };
+        // the aligned wire form pairs only with the borrowing route (documented)
+        if c.method == Method::Aligned && c.route != Route::SliceRef {
+            ensure!(
+                res.is_err() || res.as_ref().ok().map(|v| v.iter().map($bits).collect::<Vec<u64>>()) == Some(xs.iter().map($bits).collect::<Vec<u64>>()),
+                "aligned-form-reinterpreted",
+                "{} {:?}->{:?}: the aligned form sent to a non-borrowing route returned different elements",
+                $tyname,
+                c.method,
+                c.route
+            );
+            return Ok(CaseInfo::new(false).class("aligned-vs-non-ref-route"));
+        }
+        let got = res.map_err(|e| {
+            Fail::new(
+                if c.len == 0 { "e2e-empty-failed" } else { "e2e-failed" },
+                format!("{} x{} {:?}->{:?} (async client {}, async server {}): {e}", $tyname, c.len, c.method, c.route, c.asynchronous_client, c.asynchronous_server),
+            )
+        })?;
+        ensure!(
+            got.iter().map($bits).collect::<Vec<u64>>() == xs.iter().map($bits).collect::<Vec<u64>>(),
+            "e2e-bits-differ",
+            "{} x{} {:?}->{:?}: the echoed elements differ bit-for-bit",
+            $tyname,
+            c.len,
+            c.method,
+            c.route
+        );
+        Ok(CaseInfo::new(c.len == 0 || c.pad % 8 != 0)
+            .class(format!("{:?}->{:?}", c.method, c.route))
+            .class($tyname)
+            .class(if c.len == 0 { "len=0" } else { "len>0" }))
+    }};
+}
+
+pub fn check(c: &E2E) -> CheckResult {
+    match c.ty % 3 {
+        0 => run_ty!(f64, "f64", c, |b: &[u8]| f64::from_bits(u64::from_le_bytes(b.try_into().unwrap())), |x: &f64| x.to_bits()),
+        1 => run_ty!(i32, "i32", c, |b: &[u8]| i32::from_le_bytes(b[..4].try_into().unwrap()), |x: &i32| *x as u32 as u64),
+        _ => run_ty!(u8, "u8", c, |b: &[u8]| b[0], |x: &u8| *x as u64),
+    }
+}
+
+fn e2e() -> BoxedStrategy<E2E> {
+    (
+        any::<bool>(),
+        any::<bool>(),
+        prop::sample::select(vec![Method::Slice, Method::Aligned, Method::Beve]),
+        prop::sample::select(vec![Route::Slice, Route::SliceRef, Route::Typed]),
+        0u8..3,
+        prop_oneof![2 => Just(0usize), 3 => 1usize..10, 2 => 10usize..3000, 1 => 3000usize..70_000],
+        any::<u64>(),
+        0usize..9,
+    )
+        .prop_map(|(asynchronous_client, asynchronous_server, method, route, ty, len, seed, pad)| E2E {
+            asynchronous_client,
+            asynchronous_server,
+            method,
+            route,
+            ty,
+            len,
+            seed,
+            pad,
+        })
+        .boxed()
+}
+
+pub fn run(ctx: &Ctx, rep: &Report) {
+    run_prop(ctx, rep, "net-e2e", ctx.tier.pick(600, 12_000), &|| e2e(), &check);
+}
+
+pub fn replay(sub: &str, case: &Value) -> Result<(), Fail> {
+    match sub {
+        "net-e2e" => replay_case::<E2E>(case, &check),
+        _ => Err(Fail::new("replay-unknown-sub", sub.to_string())),
+    }
 }
